@@ -172,6 +172,17 @@ Theorem c19_partial_input_prefix
 Proof. exact (load_plain_prefix M unpack unmarshal now p s c1 c2). Qed.
 Print Assumptions c19_partial_input_prefix.
 
+(** A cleanly ending part of a dump's plaintext that reads without error is a
+    whole number of its blocks (so a file that loads without error is never a
+    dump cut in the middle of a block). *)
+Theorem c19_clean_prefix_is_whole_blocks (p s : bytes) (ps : list bytes) :
+  Forall (fun a => len a <= cache_dump_max_block_len) ps ->
+  p ++ s = plaintext ps ->
+  snd (read_blocks (S (length p)) p true) = BEof ->
+  exists k, fst (fst (read_blocks (S (length p)) p true)) = firstn k ps /\ p = plaintext (firstn k ps).
+Proof. exact (clean_prefix_is_whole_blocks p s ps). Qed.
+Print Assumptions c19_clean_prefix_is_whole_blocks.
+
 (** Refutation kept (finding F11, repaired by /repo commit 435e2d0): with the
     grouping by entry count only, a block can marshal to more than the loader
     accepts, and then the dump loads NOTHING. *)
@@ -225,14 +236,14 @@ Definition ex_gunzip (z : bytes) : gz_result :=
 Definition ex_cache : cache N :=
   [ mkItem [7] 41 100700000000 400000000000 50000000000      (* expired at the dump (now1 = 60 s) *)
   ; mkItem [8] 42 100700000000 400000000000 500999999999
-  ; mkItem [9; 9] 43 90000000000 300000000000 600000000000 ]%Z.
+  ; mkItem [9; 9] 43 90000000000 300000000000 600000000000 ].
 
 Example c19_nonvacuous :
   exists file,
     write_dump ex_pack ex_marshal ex_esz ex_gz 60000000000 ex_cache = Some file
     /\ read_dump ex_unpack ex_unmarshal ex_gunzip 61000000000 file
        = ([ mkItem [8] 42 100000000000 400000000000 500000000000
-          ; mkItem [9; 9] 43 90000000000 300000000000 600000000000 ]%Z, 2, LOk)
+          ; mkItem [9; 9] 43 90000000000 300000000000 600000000000 ], 2, LOk)
     /\ fst (fst (load_plain ex_unpack ex_unmarshal 61000000000
                    (firstn 20 (plaintext (map ex_marshal (fst (dump ex_pack ex_esz 60000000000 ex_cache)))))
                    false)) = []
